@@ -9,6 +9,9 @@ pub mod semantics;
 #[cfg(test)]
 mod test;
 
+#[cfg(falconre_falcon_verif)]
+pub use self::semantics::verif_registers;
+
 /// The PPC translator.
 #[derive(Clone, Debug, Default)]
 pub struct Ppc;
